@@ -97,4 +97,45 @@ Section FirstLeast.
     intros n fs H. apply fm_get_In in H. apply in_map_iff in H as (k & E & _). injection E as _ <-.
     split; [intros t []|discriminate].
   Qed.
+  (* conversely, a map closed under every rule contains everything the rules justify *)
+  Section Closed.
+    Variable m : first_map.
+    Hypothesis Hc : forall ru, In ru rules -> rule_closed m ru.
+
+    Lemma closed_get ru : In ru rules -> exists old, fm_get m (ru_type ru) = Some old /\
+      incl (fterms m (field_symbols (ru_fieldset ru))) (fs_terminals (fm_get_or_empty m (ru_type ru))) /\
+      (fnull m (field_symbols (ru_fieldset ru)) = true -> fs_eps (fm_get_or_empty m (ru_type ru)) = true).
+    Proof.
+      intros H. destruct (Hc ru H) as (old & Ho & H1 & H2). exists old. unfold fm_get_or_empty. rewrite Ho. auto.
+    Qed.
+
+    Lemma closed_nder : (forall n, nder n -> fs_eps (fm_get_or_empty m n) = true) /\ (forall syms, nders syms -> fnull m syms = true).
+    Proof.
+      apply nder_nders_mind.
+      - intros ru Hin _ IH. destruct (closed_get ru Hin) as (_ & _ & _ & H). apply H, IH.
+      - reflexivity.
+      - intros n r _ IH1 _ IH2. cbn [fnull forallb sym_null]. rewrite IH1. exact IH2.
+    Qed.
+
+    Lemma closed_fder : (forall n t, fder n t -> In t (fs_terminals (fm_get_or_empty m n))) /\
+                        (forall syms t, fders syms t -> In t (fterms m syms)).
+    Proof.
+      apply fder_fders_mind.
+      - intros ru t Hin _ IH. destruct (closed_get ru Hin) as (_ & _ & H & _). apply H, IH.
+      - intros t r. left. reflexivity.
+      - intros n r t _ IH. cbn [fterms]. apply in_or_app. left. exact IH.
+      - intros n r t Hn _ IH. cbn [fterms]. apply in_or_app. right. rewrite (proj1 closed_nder n Hn). exact IH.
+    Qed.
+  End Closed.
+
+  (* the map the generator computes is exactly FIRST / nullable of the rules *)
+  Theorem get_first_sets_exact fuel fm : get_first_sets fuel rules = Ok fm ->
+    forall n, (forall t, In t (fs_terminals (fm_get_or_empty fm n)) <-> fder n t) /\
+              (fs_eps (fm_get_or_empty fm n) = true <-> nder n).
+  Proof.
+    intros H n. destruct (get_first_sets_spec _ _ _ H) as (_ & Hc). pose proof (get_first_sets_least _ _ H) as HJ.
+    destruct (just_or_empty fm n HJ) as (H1 & H2). split; [intros t|]; split; auto.
+    - apply (proj1 (closed_fder fm Hc)).
+    - apply (proj1 (closed_nder fm Hc)).
+  Qed.
 End FirstLeast.
